@@ -27,7 +27,7 @@ RULE = (
     "distinct = sha1(input, solver config)"
 )
 BOUNDS = {
-    "quick": "m,n<=3, ranks 0..min, all compositions x 2 value assignments from {1,1/2,1/4,2^-5,2^-10}, factors monomial/Householder, gamma in {1/2,1}, K=12, stop cells tol in {1e-3,1e-6,1e-9} budget 300",
+    "quick": "m,n<=3 (+ whole-matrix scalings 2^-27, 2^27), ranks 0..min, all compositions x 2 value assignments from {1,1/2,1/4,2^-5,2^-10}, factors monomial/Householder, gamma in {1/2,1}, K=12, stop cells tol in {1e-3,1e-6,1e-9} budget 300",
     "thorough": "m,n<=4, gamma in {1/4,1/2,3/4,1}, K=30, dynamic range 2^20",
 }
 WALL_BUDGET = {"quick": 420, "thorough": 3000}
@@ -73,6 +73,11 @@ def cases(tier, seed):
                                 out.append({"key": f"damped/{base}/g={g}/res={int(cr)}", "solver": "damped", "m": m, "n": n, "comp": list(comp), "how": how, "kind": kind, "gamma": g, "cr": cr, "sparse": False, "mode": "traj"})
                         out.append({"key": f"damped/{base}/g=0.5/sparse", "solver": "damped", "m": m, "n": n, "comp": list(comp), "how": how, "kind": kind, "gamma": 0.5, "cr": True, "sparse": True, "mode": "traj"})
                         out.append({"key": f"third/{base}", "solver": "third", "m": m, "n": n, "comp": list(comp), "how": how, "kind": kind, "gamma": None, "cr": True, "sparse": False, "mode": "traj"})
+                        if how == "head" and kind == "hh" and r >= 1:
+                            for e in (-27, 27):
+                                out.append({"key": f"damped/{base}/g=1.0/scale=2^{e}", "solver": "damped", "m": m, "n": n, "comp": list(comp), "how": how, "kind": kind, "gamma": 1.0, "cr": True, "sparse": False, "mode": "traj", "scale": e})
+                                out.append({"key": f"damped/{base}/g=0.5/nores/scale=2^{e}", "solver": "damped", "m": m, "n": n, "comp": list(comp), "how": how, "kind": kind, "gamma": 0.5, "cr": False, "sparse": False, "mode": "traj", "scale": e})
+                                out.append({"key": f"third/{base}/scale=2^{e}", "solver": "third", "m": m, "n": n, "comp": list(comp), "how": how, "kind": kind, "gamma": None, "cr": True, "sparse": False, "mode": "traj", "scale": e})
                         if how == "head" and r >= 1:
                             for tol in (1e-3, 1e-6, 1e-9):
                                 out.append({"key": f"stop/damped/{base}/tol={tol}", "solver": "damped", "m": m, "n": n, "comp": list(comp), "how": how, "kind": kind, "gamma": 1.0, "cr": True, "sparse": False, "mode": "stop", "tol": tol})
@@ -106,6 +111,8 @@ def run_case(case, seed):
     K = 12 if case.get("tier", "quick") == "quick" else 30
     fill = G.Fill(seed, stream=hash_tag(f"{m}x{n}/{case['kind']}"))
     s = assign(case["comp"], case["how"], MENU if case.get("tier", "quick") == "quick" else MENU_T)
+    if case.get("scale"):
+        s = [float(np.ldexp(v, case["scale"])) for v in s]
     r = len(s)
     Uq = G.unitary(case["kind"], m, fill, variant=m + 2 * r)
     Vq = G.unitary(case["kind"], n, fill, variant=n + 3 * r + 1)
